@@ -1176,6 +1176,20 @@ def gen_poll_skel():
 
 KERNELS.append((gen_poll_skel, "PollSkel.v"))
 
+import throttle2coq      # noqa: E402
+
+
+def gen_throttle_skel():
+    """the method bodies of ThrottleExecutor / ThrottleFuture / AtomicInt (IR of Model/ThrottleIR.v), see tools/throttle2coq.py"""
+    try:
+        throttle2coq.generate()
+    except throttle2coq.Unsupported as e:
+        raise Unsupported(str(e))
+
+
+KERNELS.append((gen_throttle_skel, "ThrottleSkel.v"))
+
+
 
 
 
